@@ -59,6 +59,7 @@ FINDING_WHAT = {
     "spv-private-not-zeroed": "a `var<private>` without initialiser is emitted as OpVariable Private without initializer: its first read is undefined (WGSL: zero value)",
     "spv-local-var-not-zeroed": "a function-scope `var x: T;` without initialiser is emitted as OpVariable Function without initializer and without a store: its first read is undefined (WGSL: zero value, at every execution of the declaration)",
     "spv-module-composite-constant-null": "a module-scope constant of composite type (`const K = vec4<i32>(7, 65535, -1, 32);`) has no inline Value in the IR (its value is Module.GlobalExpressions[Init]); spirv emitConstant emits OpConstantNull for it, so every use of the constant as a whole value or under a run-time index reads zeros (the repository's golden SPIR-V files encode the same output)",
+    "spv-switch-all-break-merge-unreachable": "a switch whose every clause ends by leaving it (`break;`, also mixed with return / continue) gets OpUnreachable as its merge block: emitSwitch counts a case body that ended in `break` as terminated although the break branches to the merge label; every statement after the switch is dropped and executing the switch is undefined behaviour (the golden control-flow.spvasm encodes the same output)",
     "spv-spill-store-not-dominating": "a by-value composite that is dynamically indexed is spilled to a Function variable by an OpStore placed in the block of the FIRST dynamic access; later accesses in blocks that this block does not dominate read the variable without it having been written",
 }
 for _k, _v in list(REFUTED_FINDING.items()):
